@@ -166,6 +166,9 @@ def causes(world: H.World, cfg: dict, cls: str, upto: int | None = None, exact_d
     log = world.log if upto is None else world.log[:upto]
     if cls == "decimal" and (not exact_domain or _tiny_negative_raised(log)):
         return "float"
+    if any(e.get("after_granted") for e in log if e["ev"] == "pass"):
+        # the engine itself allocated a job twice within one request: never a known finding
+        return "request-allocated-twice"
     if not H.history_conforms(world, upto)[0]:
         return "out-of-protocol"
     if any(e.get("stale_connector") for e in log if e["ev"] == "notify"):
@@ -278,14 +281,53 @@ def _explore(ctx: Ctx, pid: str) -> None:
             cl = H.config_lines(world)
             ml, evs = H.model_lines(world)
             metas.append((world, len(lines) + len(cl), evs, cfg, executed, seed, cls))
-            lines += cl + ml
+            lines += cl + ml + ["refhyp"]
     outs = ctx.lean("Drivers/C10.lean", lines)
+    try:
+        hyps = ctx.lean("Drivers/C10Hyp.lean", lines)      # imports the lemma files: unavailable while a proof is broken
+    except Exception as e:  # noqa: BLE001
+        hyps = None
+        ctx.notes.append(f"hypothesis driver Drivers/C10Hyp.lean unavailable ({type(e).__name__}); refinement hypotheses not measured in this run")
     for world, off, evs, cfg, executed, seed, cls in metas:
         ds = H.compare(world, outs[off:off + len(evs)], evs)
         for what, detail in ds[:1]:
             ctx.disagree(f"scheduler model vs DefaultScheduler: {what}", detail[:1500], {"cfg": cfg, "ops": executed, "seed": seed, "class": cls})
         for o in outs[off:off + len(evs)]:
             ctx.count("model:" + o.split(" ")[0])
+        # hypothesis of C10.sched_refines_ledger (flat hardware configuration + protocol, evaluated by the Lean driver with
+        # the decidable Refine.OkS at every step) and whether some step raised
+        if hyps is None:
+            continue
+        hyp = hyps[off + len(evs)].split(" ")
+        stale = any(e.get("stale_connector") for e in world.log if e["ev"] == "notify")
+        if hyp[0] == "true":
+            ctx.count("refinement-hypothesis:holds")
+            if stale:
+                # the real run left the modelled domain (notification racing with a re-allocation: the model's notify is atomic)
+                ctx.count("refinement-hypothesis:holds-but-real-run-has-stale-connector-race")
+            elif hyp[1] == "false":
+                ctx.count("refinement-hypothesis:holds-and-no-step-raised")
+                # the theorem's conclusion, observed on the REAL state: reserved cores/memory = what the occupying jobs need
+                use = world.true_usage()
+                for lname, h in world.scheduler.hardware_locations.items():
+                    u = use.get(lname, {"cores": 0, "memory": 0})
+                    if h.cores != u["cores"] or h.memory != u["memory"]:
+                        ctx.disagree("conclusion of sched_refines_ledger on the real scheduler",
+                                     f"{lname}: reserved cores/memory {h.cores}/{h.memory}, occupying jobs need {u['cores']}/{u['memory']}",
+                                     {"cfg": cfg, "ops": executed, "seed": seed, "class": cls})
+        else:
+            ctx.count("refinement-hypothesis:does-not-hold")
+        # hypothesis of C10.sched_refines_slots (flat slot-only configuration + protocol) and its conclusion on the real state
+        if len(hyp) > 2 and hyp[2] == "true":
+            ctx.count("slots-refinement-hypothesis:holds")
+            if hyp[1] == "false" and not stale:
+                ctx.count("slots-refinement-hypothesis:holds-and-no-step-raised")
+                for lname, u in world.true_usage().items():
+                    lc = world.loc_cfg[lname]
+                    slots = lc["slots"] if lc["slots"] is not None else 1
+                    if lc["hw"] is None and u["count"] > slots:
+                        ctx.disagree("conclusion of sched_refines_slots on the real scheduler",
+                                     f"{lname}: {u['count']} occupying jobs > {slots} slots", {"cfg": cfg, "ops": executed, "seed": seed, "class": cls})
 
 
 def replay(ctx: Ctx, pid: str, data: Any) -> None:
